@@ -162,7 +162,8 @@ theorem C_disjunctionWithNullToOptional (S S' : Schemas) (hc : Closed S)
   split at ht
   · simp only [Outcome.ok.injEq] at ht; subst ht; exact hq
   · split at ht
-    · cases ht
+    · -- `null | null` is returned unchanged since /repo fix 30da046 (a panic before)
+      simp only [Outcome.ok.injEq] at ht; subst ht; exact hq
     · rename_i t rest hnn
       simp only [Outcome.ok.injEq] at ht; subst ht
       intro u hu
